@@ -50,7 +50,7 @@ fn main() {
         }
         let mut d = D::new(&bytes);
         match kind.as_str() {
-            "main" => vmodel::gen::gen_batch(&mut d, &vmodel::gen::BatchCfg { n, max_depth: 2 }),
+            "main" => vmodel::gen::gen_batch(&mut d, &vmodel::gen::BatchCfg { n, max_depth: 3 }),
             "magic" => vmodel::gen_elem::gen_magic_batch(&mut d),
             "sugg" => vmodel::gen_sugg::gen_sugg_batch(&mut d, n / 5),
             "shapes" => vmodel::gen_elem::gen_shapes_batch(&mut d, n),
@@ -68,7 +68,7 @@ fn main() {
             k += 1;
         }
         let mut d = D::new(&bytes);
-        let mut specs = vmodel::gen::gen_batch(&mut d, &vmodel::gen::BatchCfg { n, max_depth: 2 });
+        let mut specs = vmodel::gen::gen_batch(&mut d, &vmodel::gen::BatchCfg { n, max_depth: 3 });
         vmodel::gen::hostile_rename(&mut specs, &mut d);
         let base = specs.len();
         let mut magic = vmodel::gen_elem::gen_magic_batch(&mut d);
